@@ -69,6 +69,9 @@ def impl_arrays(name, n, ps, default_full=False):
 
 # --------------------------------------------------------------------------- model side (Coq)
 def zlist(ps):
+    ps = list(ps)
+    if len(ps) > 64 and ps == list(range(len(ps))):
+        return "(zrange %d)" % len(ps)
     return "[" + ";".join(str(int(p)) for p in ps) + "]%Z"
 
 
@@ -326,7 +329,7 @@ def plan(ctx):
         if N * D <= 100:
             wide_ok = set(counts)
         elif ctx.quick:
-            wide_ok = {1, 2} | ({50} if name == "avhrr" else set())
+            wide_ok = {2} | ({1, 50} if name == "avhrr" else set())
         else:
             wide_ok = {1, 2, 3, 7, 19, 50} if N * D < 100000 else {1, 2, 3, 10}
         for n in counts:
